@@ -103,7 +103,8 @@ static void rtSongBegin(void *userdata)
     OPNMIDIplay *context = reinterpret_cast<OPNMIDIplay *>(userdata);
     context->realTime_ResetState();
     // A song that starts again (rewind, seek, loop to the begin) must not inherit
-    // the programs and banks selected by its previous pass
+    // the programs, banks and the GM/GS/XG mode selected by its previous pass
+    context->m_synthMode = OPNMIDIplay::Mode_XG;
     for(size_t ch = 0; ch < context->m_midiChannels.size(); ++ch)
     {
         OPNMIDIplay::MIDIchannel &chan = context->m_midiChannels[ch];
